@@ -316,6 +316,82 @@ def check_lengths(ctx, rng):
             ctx.violation("C04:length-check-solver", f"solver sweep with lengths {a},{b}: accepted={ok}", rep)
 
 
+def hier_sweep_stream(ctx, rng, data=None):
+    """parametric *hierarchies* (sub-solvers placed several times, renamings at every level) solved with array-valued parameters:
+    the batched solve of the code against the end-to-end model `PNet.psweep` (lengths normalised as Solver.solve does, length-1
+    values broadcast, point i = the scalar model solve at the i-th values), incl. rejected length combinations"""
+    import hier
+    import props.c11 as c11
+    if data is None:
+        node = hier.gen_node(rng, rng.randint(2, 3), [0, 0], parametric=True)
+        c11.add_renames(rng, node)
+        if hier.count_placements(node) > 8:
+            return
+        vis = hier.visible(node)
+        ns = rng.randint(2, 4)
+        kw = {}
+        for x in vis:
+            mode = rng.choice(["scalar", "len1", "lenN", "lenN", "absent"])
+            if mode == "scalar":
+                kw[x] = gen.frac_str(Fraction(rng.randint(-8, 8), 8))
+            elif mode == "len1":
+                kw[x] = [gen.frac_str(Fraction(rng.randint(-8, 8), 8))]
+            elif mode == "lenN":
+                kw[x] = [gen.frac_str(Fraction(rng.randint(-8, 8), 8)) for _ in range(ns)]
+        if rng.random() < 0.12 and vis:
+            kw[rng.choice(vis)] = [gen.frac_str(Fraction(rng.randint(-8, 8), 8)) for _ in range(ns + 1)]      # may be inconsistent
+        data = {"kind": "hier-sweep", "tree": hier.describe(node), "kw": kw}
+    node = hier.undescribe(data["tree"])
+    kw = data["kw"]
+    names = [e[0] for e in node.expose]
+    ctx.case(("hier-sweep", data["tree"], repr(sorted(kw.items()))), tags=["stream:hier-sweep"])
+    real_kw = {k: (np.array([float(Fraction(z)) for z in v]) if isinstance(v, list) else float(Fraction(v))) for k, v in kw.items()}
+    try:
+        S = impl.solved_matrix(hier.build(node).solve(**real_kw), names)
+        real = ("ok", S)
+    except np.linalg.LinAlgError:
+        ctx.tag("outcome:singular-raised")
+        return
+    except Exception as e:  # noqa
+        real = ("rejected", type(e).__name__)
+    ans = ctx.driver.ask({"op": "phsweep", "tree": hier.ptree_json(node),
+                          "kw": [[k, [[z, "0/1"] for z in (v if isinstance(v, list) else [v])]] for k, v in kw.items()]})
+    if ans.get("err") == "lengths":
+        if real[0] != "rejected":
+            ctx.violation("C04:hier-lengths-accepted", f"a hierarchy accepted inconsistent sweep lengths { {k: len(v) for k, v in kw.items() if isinstance(v, list)} }", data)
+        else:
+            ctx.tag("outcome:lengths-rejected")
+        return
+    if "points" not in ans:
+        ctx.disagreement("C04.model.psweep", f"model: {ans}", data)
+        return
+    if real[0] == "rejected":
+        ctx.violation(f"C04:hier-sweep-raised-{real[1]}", f"a sweep over a hierarchy with consistent lengths raised {real[1]}", data)
+        return
+    pts = ans["points"]
+    if len(pts) != S.shape[0]:
+        ctx.violation("C04:hier-sweep-length", f"sweep of a hierarchy has {S.shape[0]} points, the length rule gives {len(pts)}", data)
+        return
+    n = len(names)
+    for k, pt in enumerate(pts):
+        if "T" not in pt:
+            ctx.tag("model:singular-point")
+            continue
+        order = [pt["pins"].index(nm) for nm in names]
+        T = gen.json_mat_np([z for row in pt["T"] for z in row], n, n) if n else np.zeros((0, 0), complex)
+        T = T[np.ix_(order, order)] if n else T
+        if T.size and float(np.max(np.abs(T - S[k]))) > 1e-9:
+            # who is right?  the scalar solve of the code at that point
+            pt_kw = {kk: (float(Fraction(v[k if len(v) > 1 else 0])) if isinstance(v, list) else float(Fraction(v))) for kk, v in kw.items()}
+            ref = impl.solved_matrix(hier.build(node).solve(**pt_kw), names)[0]
+            if float(np.max(np.abs(ref - S[k]))) > 1e-9:
+                ctx.violation("C04:hier-sweep-wrong", f"sweep over a hierarchy: point {k} differs from the scalar solve of that point by {np.max(np.abs(ref - S[k])):.3e}", data)
+            else:
+                ctx.disagreement("C04.model.psweep", f"end-to-end model differs from the code at sweep point {k} (the code's scalar solve agrees with its sweep)", data)
+            return
+    ctx.tag("model:psweep")
+
+
 def run(ctx):
     rng = ctx.subrng("c04")
     facts = block_factories()
@@ -339,9 +415,19 @@ def run(ctx):
                  sample={"comps": [len(c["pins"]) for c in pcirc["comps"]], "assign": assign_json(assign)} if i < 1 else None)
         check_solver_sweep(ctx, pcirc, assign, replay)
     check_lengths(ctx, rng)
+    hrng = ctx.subrng("c04-hier")
+    for _ in range(ctx.budget(80, 800)):
+        if ctx.time_left() < 0:
+            return
+        hier_sweep_stream(ctx, hrng)
 
 
 def replay(ctx, data):
+    if data["kind"] == "hier-sweep":
+        hier_sweep_stream(ctx, None, data)
+        if ctx.violations:
+            return False, ctx.violations[0]["what"]
+        return True, "sweep over the hierarchy equals the stack of scalar solves"
     if data["kind"] == "block":
         facts = block_factories()
         factory, params = facts[data["block"]]
